@@ -57,6 +57,7 @@ type evIn struct {
 	Op     string `json:"op"`
 	Ws     []wIn  `json:"ws,omitempty"`
 	Status uint64 `json:"status,omitempty"`
+	Cerr   bool   `json:"cerr,omitempty"` // close / batchclose: the underlying CloseWithStatus returns an error
 	Bs     []byte `json:"bs,omitempty"`
 	Normal bool   `json:"normal,omitempty"`
 }
@@ -67,6 +68,9 @@ type caseIn struct {
 	Script []dialSpec `json:"script"`
 	TailHs bool       `json:"tail_hs"`
 	Free   bool       `json:"free"`
+	// every plain Close() of an underlying connection (the one reconnect makes on the old
+	// connection) returns an error; the library only logs it
+	PlainCloseErr bool `json:"plain_close_err,omitempty"`
 	Evs    []evIn     `json:"events"`
 }
 
@@ -94,6 +98,9 @@ type gate struct {
 	// before it returns nil
 	postOpen    bool
 	postWaiting int
+	// scripted results of the underlying close calls (the connection is torn down all the same)
+	failStatusClose bool
+	plainCloseErr   bool
 }
 
 func newGate() *gate {
@@ -255,6 +262,12 @@ func (i *inc) closeWith(code uint64, withStatus bool) error {
 	}
 	i.cond.Broadcast()
 	i.mu.Unlock()
+	i.g.mu.Lock()
+	fail := (withStatus && i.g.failStatusClose) || (!withStatus && i.g.plainCloseErr)
+	i.g.mu.Unlock()
+	if fail {
+		return fmt.Errorf("scripted: close handshake failed")
+	}
 	return nil
 }
 
@@ -432,6 +445,7 @@ type result struct {
 // given, from the online generator (they are then recorded into ci.Evs).
 func runCase(ci *caseIn, src evSource) (res result) {
 	g := newGate()
+	g.plainCloseErr = ci.PlainCloseErr
 	d := &dialer{g: g, script: append([]dialSpec(nil), ci.Script...), tailHs: ci.TailHs, free: ci.Free}
 	cfg := reconnect.DialConfig{Dialer: d, MaxReconnectAttempts: ci.Budget, ReconnectInterval: interval}
 	if ci.TidSet {
@@ -471,7 +485,7 @@ func runCase(ci *caseIn, src evSource) (res result) {
 		return coqfmt.List(l)
 	}
 	if derr != nil {
-		res.term = fmt.Sprintf("mkRcCase %s %s false [] [] [] %s", cfgTerm(ci), coqfmt.Bool(ci.Free), dialsTerm())
+		res.term = fmt.Sprintf("mkRcCase %s %s false [] [] [] %s false 0", cfgTerm(ci), coqfmt.Bool(ci.Free), dialsTerm())
 		res.obs = map[string]interface{}{"new": false, "err": fmt.Sprint(derr)}
 		return
 	}
@@ -696,6 +710,22 @@ func runCase(ci *caseIn, src evSource) (res result) {
 		return "OReadFail true"
 	}
 
+	dialsAtClose := -1
+	ndials := func() int { d.mu.Lock(); defer d.mu.Unlock(); return len(d.dials) }
+	// CloseWithStatus with the scripted outcome of the underlying close
+	doClose := func(st transport.CloseStatus, cerr bool) (err error, p interface{}, blocked bool) {
+		g.mu.Lock()
+		g.failStatusClose = cerr
+		g.mu.Unlock()
+		p, blocked = callWD(func() { err = rt.CloseWithStatus(st) })
+		g.mu.Lock()
+		g.failStatusClose = false
+		g.mu.Unlock()
+		if dialsAtClose < 0 {
+			dialsAtClose = ndials()
+		}
+		return
+	}
 	nEv := 0
 	next := func() (evIn, bool) {
 		if src != nil {
@@ -830,11 +860,11 @@ func runCase(ci *caseIn, src evSource) (res result) {
 			st := statusNames[e.Status%4]
 			var cp interface{}
 			var cb bool
-			rs := batch(e.Ws, func() { cp, cb = callWD(func() { _ = rt.CloseWithStatus(st) }) })
+			rs := batch(e.Ws, func() { _, cp, cb = doClose(st, e.Cerr) })
 			if cp != nil || cb {
 				abort(fmt.Sprintf("CloseWithStatus: panic=%v blocked=%v", cp, cb))
 			}
-			emit(fmt.Sprintf("BatchClose %s %d", wsTerm(e.Ws), e.Status%4+1), wrTerm(rs, "batchclose"))
+			emit(fmt.Sprintf("BatchClose %s %d %s", wsTerm(e.Ws), e.Status%4+1, coqfmt.Bool(e.Cerr)), wrTerm(rs, "batchclose"))
 			settle(false)
 		case "deliver":
 			isPing := string(e.Bs) == "ping"
@@ -940,10 +970,11 @@ func runCase(ci *caseIn, src evSource) (res result) {
 			settle(false)
 		case "close":
 			st := statusNames[e.Status%4]
-			if p, blocked := callWD(func() { _ = rt.CloseWithStatus(st) }); p != nil || blocked {
+			cerrObs, p, blocked := doClose(st, e.Cerr)
+			if p != nil || blocked {
 				abort(fmt.Sprintf("CloseWithStatus: panic=%v blocked=%v", p, blocked))
 			}
-			emit(fmt.Sprintf("CloseE %d", e.Status%4+1), "OUnit")
+			emit(fmt.Sprintf("CloseE %d %s", e.Status%4+1, coqfmt.Bool(e.Cerr)), "OClose "+coqfmt.Bool(cerrObs != nil))
 			settle(false)
 		default:
 			abort("generator error: unknown op " + e.Op)
@@ -968,9 +999,14 @@ func runCase(ci *caseIn, src evSource) (res result) {
 		t.mu.Unlock()
 	}
 	dt := dialsTerm()
-	res.term = fmt.Sprintf("mkRcCase %s %s true %s %s %s %s", cfgTerm(ci), coqfmt.Bool(ci.Free),
-		coqfmt.List(evsT), coqfmt.List(outsT), coqfmt.List(incT), dt)
-	res.obs = map[string]interface{}{"new": true, "trace": obs, "incs": incT, "dials": dt}
+	doneObs := isDone()
+	post := 0
+	if dialsAtClose >= 0 {
+		post = ndials() - dialsAtClose
+	}
+	res.term = fmt.Sprintf("mkRcCase %s %s true %s %s %s %s %s %d", cfgTerm(ci), coqfmt.Bool(ci.Free),
+		coqfmt.List(evsT), coqfmt.List(outsT), coqfmt.List(incT), dt, coqfmt.Bool(doneObs), post)
+	res.obs = map[string]interface{}{"new": true, "trace": obs, "incs": incT, "dials": dt, "done": doneObs, "dials_after_close": post}
 	if sawRevive {
 		res.sig = sigRevive
 	}
@@ -1040,6 +1076,7 @@ func genCase(r *rng.R) (*caseIn, evSource, string) {
 	if ci.Free {
 		kind = "free"
 	}
+	ci.PlainCloseErr = r.Chance(1, 5)
 	if r.Chance(1, 40) {
 		ci.Budget = 0
 		kind += "-budget0"
@@ -1085,7 +1122,7 @@ func genCase(r *rng.R) (*caseIn, evSource, string) {
 				// what happens after the end: Close (if not over yet), then a write and a read
 				closing = true
 				tailLeft = 3
-				return evIn{Op: "close", Status: uint64(r.Intn(4))}, true
+				return evIn{Op: "close", Status: uint64(r.Intn(4)), Cerr: r.Chance(1, 3)}, true
 			}
 			return evIn{}, false
 		}
@@ -1129,9 +1166,9 @@ func genCase(r *rng.R) (*caseIn, evSource, string) {
 				}
 				return evIn{Op: "readjoin"}, true
 			case x < 96:
-				return evIn{Op: "batchclose", Ws: mkWs(r.Intn(4)), Status: uint64(r.Intn(4))}, true
+				return evIn{Op: "batchclose", Ws: mkWs(r.Intn(4)), Status: uint64(r.Intn(4)), Cerr: r.Chance(1, 3)}, true
 			default:
-				return evIn{Op: "close", Status: uint64(r.Intn(4))}, true
+				return evIn{Op: "close", Status: uint64(r.Intn(4)), Cerr: r.Chance(1, 3)}, true
 			}
 		}
 	}
@@ -1165,7 +1202,7 @@ func genBigQueue(n int, add func(*caseIn, evSource, string)) {
 	add(&caseIn{Budget: 1, TidSet: true, Script: []dialSpec{{Ok: true, Cap: -1}}},
 		fixed(evIn{Op: "batchclose", Ws: big(n), Status: 1}), "big-queue")
 	add(&caseIn{Budget: 1, Script: []dialSpec{{Ok: true, Cap: -1}}},
-		fixed(evIn{Op: "batchclose", Ws: big(queueCap + 6), Status: 2}), "big-queue")
+		fixed(evIn{Op: "batchclose", Ws: big(queueCap + 6), Status: 2, Cerr: true}), "big-queue")
 	// the write side exhausts its budget on the first / the fourth write of an overfull queue
 	add(&caseIn{Budget: 2, TidSet: true, Script: []dialSpec{{Ok: true, Cap: 0}, {}}},
 		fixed(evIn{Op: "batch", Ws: big(n)}), "big-queue")
@@ -1201,7 +1238,7 @@ func genExhaustive(depth int, add func(*caseIn, evSource, string)) {
 						{Op: "batch", Ws: []wIn{{1, []byte{1, 2}}, {4, []byte{4, 1}}}},
 						{Op: "readstart"},
 						{Op: "readjoin"},
-						{Op: "close", Status: 2},
+						{Op: "close", Status: 2, Cerr: budget == 2},
 						{Op: "batch", Ws: []wIn{{2, []byte{2, 2}}}},
 						{Op: "readstart"},
 						{Op: "readjoin"},
@@ -1242,7 +1279,7 @@ func main() {
 	noExh := flag.Bool("noexh", false, "development: skip the exhaustive family")
 	flag.Parse()
 	w := coqfmt.NewWriter(*out, "C18", "From Iscp Require Import Model.Reconnect.", "rc_case", "rc_judge", 120)
-	const emptyTerm = "mkRcCase (mkRC 1 1 [] false) false false [] [] [] []"
+	const emptyTerm = "mkRcCase (mkRC 1 1 [] false) false false [] [] [] [] false 0"
 
 	var jobs []job
 	if *replay != "" {
@@ -1274,6 +1311,17 @@ func main() {
 			jobs = append(jobs, job{kind: "regression-F33", ci: &caseIn{Budget: 1, TidSet: true,
 				Script: []dialSpec{{Ok: true, Hs: true, Cap: -1}, {}, {Ok: true, Hs: true, Cap: -1}},
 				Evs: []evIn{{Op: "readfail"}, {Op: "readstart"}, {Op: "readjoin"}, {Op: "batch", Ws: []wIn{{1, []byte{7}}}}}}})
+			// the underlying close fails at Close while the dialler could still connect: Close is final all the same
+			for _, bc := range []bool{false, true} {
+				op := evIn{Op: "close", Status: 1, Cerr: true}
+				if bc {
+					op = evIn{Op: "batchclose", Ws: []wIn{{1, []byte{1, 1}}, {2, []byte{2, 1}}}, Status: 3, Cerr: true}
+				}
+				jobs = append(jobs, job{kind: "close-error", ci: &caseIn{Budget: 2, TidSet: bc,
+					Script: []dialSpec{{Ok: true, Cap: -1}, {Ok: true, Hs: true, Cap: -1}, {Ok: true, Hs: true, Cap: -1}},
+					Evs: []evIn{{Op: "batch", Ws: []wIn{{3, []byte{3, 1}}}}, {Op: "readstart"}, op, {Op: "readjoin"},
+						{Op: "batch", Ws: []wIn{{4, []byte{4, 1}}}}, {Op: "readstart"}, {Op: "readjoin"}}}})
+			}
 			genBigQueue(1100, func(ci *caseIn, src evSource, kind string) { jobs = append(jobs, job{ci: ci, src: src, kind: kind}) })
 			genExhaustive(depth, func(ci *caseIn, src evSource, kind string) { jobs = append(jobs, job{ci: ci, src: src, kind: kind}) })
 		}
@@ -1342,7 +1390,7 @@ func main() {
 			w.Count("sig:" + rs.sig)
 		}
 	}
-	rule := "big-queue: 6 cases with 1030-1100 concurrently pending writers (1 in flight, 1024 queued, the rest blocked on the full queue) ended by Close / write-side / read-side budget exhaustion, every Write must return an error; exhaustive: every script of <= d dial outcomes after the first connection over {dial error, connect + handshake read fails, connect, connect with write capacity 1}, first connection of capacity 1 or 2, budget 1 or 2, both behaviours once the script is used up (dial errors / connections whose handshake fails for ever), around the fixed history: 3 queued writes of 3 writers, ping, pending Read resolved by a delivery, read failure, 2 more writes, Read, Close, write and Read after Close. random: budget 1-3 (0 = default 30 rarely), scripts of 1-11 outcomes incl. failing Dial, 5-16 events out of: batches of 1-4 concurrently pending writes of distinct writers (queue order fixed through the queue-length accessor), read failure while a write is in flight before / after the underlying connection recorded it (accept -> read failure -> redial completes -> Write returns nil), Close while a write is in flight with more queued, deliveries (data, ping, pong), read failures (abnormal and normal close), Read started / joined (pending across other events), Close; then Close, write, Read; 1/4 of the cases with the read loop free to race the write loop's redial. non-trivial = some dial/handshake failure or write capacity in the script, a redial caused by it, and at least one write; distinct = distinct Coq case terms"
+	rule := "big-queue: 6 cases with 1030-1100 concurrently pending writers (1 in flight, 1024 queued, the rest blocked on the full queue) ended by Close / write-side / read-side budget exhaustion, every Write must return an error; exhaustive: every script of <= d dial outcomes after the first connection over {dial error, connect + handshake read fails, connect, connect with write capacity 1}, first connection of capacity 1 or 2, budget 1 or 2, both behaviours once the script is used up (dial errors / connections whose handshake fails for ever), around the fixed history: 3 queued writes of 3 writers, ping, pending Read resolved by a delivery, read failure, 2 more writes, Read, Close, write and Read after Close. random: budget 1-3 (0 = default 30 rarely), scripts of 1-11 outcomes incl. failing Dial, 5-16 events out of: batches of 1-4 concurrently pending writes of distinct writers (queue order fixed through the queue-length accessor), read failure while a write is in flight before / after the underlying connection recorded it (accept -> read failure -> redial completes -> Write returns nil), Close while a write is in flight with more queued, deliveries (data, ping, pong), read failures (abnormal and normal close), Read started / joined (pending across other events), Close (1/3 with the underlying CloseWithStatus returning an error, 1/5 of the cases with every plain underlying Close returning an error); then Close, write, Read; 1/4 of the cases with the read loop free to race the write loop's redial. non-trivial = some dial/handshake failure or write capacity in the script, a redial caused by it, and at least one write; distinct = distinct Coq case terms"
 	if err := w.Flush(*seed, *tier, rule, false, nil); err != nil {
 		fmt.Fprintln(os.Stderr, err)
 		os.Exit(2)
